@@ -71,6 +71,9 @@ def array_params(name, data, rng):
 
 def run_history(ctx, name, rng, nsets, length):
   datasets = [fits.make_data(rng, d=int(rng.integers(2, 6))) for _ in range(nsets)]
+  if name == 'RCA':
+    # half of the data sets are passed without their unchunked points (every row belongs to a chunk)
+    datasets = [dict(dd, all_chunked=bool(k % 2 == 0)) for k, dd in enumerate(datasets)]
   for data in datasets:      # memory layout in which the training array is handed to fit (a fresh array per call)
     data['layout'] = fits.LAYOUTS[int(rng.integers(0, len(fits.LAYOUTS)))]
     ctx.hist('layout', data['layout'])
